@@ -33,6 +33,7 @@ ASSUMPTIONS = [
 	'worker bodies: two threads interleaved at Python-line granularity inside gambit sources with <= 1 (quick) / 2 (thorough) preemptions; C-level and library-internal interleavings are not explored',
 ]
 TIMEOUT = 60
+PATIENCE = 0.05
 
 _CTL = None
 _REAL = None
@@ -57,6 +58,7 @@ class Ctl:
 		self.fut_done = [threading.Event() for _ in range(n)]
 		self.error = None
 		self.shutdown_called = False
+		self.impatient = 0
 
 
 def gated_calc_file_signature(kspec, seqfile, **kw):
@@ -185,11 +187,13 @@ def controller(ctl, order, p, manual):
 			if done == p:
 				ctl.pre_done.set()
 			if done >= p:
-				# wait for the caller to consume every completion so far (or to give up: meter closed)
+				# give the caller the chance to consume every completion so far before the next one happens (or to give up: meter closed).
+				# An implementation that consumes results in SUBMISSION order (e.g. executor.map) legitimately does not tick here; the
+				# controller then moves on after a short patience instead of insisting - the result is judged only at the end.
 				with ctl.tick:
-					ok = ctl.tick.wait_for(lambda: ctl.ticks >= done or ctl.closed.is_set(), TIMEOUT)
+					ok = ctl.tick.wait_for(lambda: ctl.ticks >= done or ctl.closed.is_set(), PATIENCE)
 				if not ok:
-					raise Divergence(f'caller did not consume completion {done} (ticks={ctl.ticks})')
+					ctl.impatient += 1
 			if ctl.closed.is_set():
 				break
 	except BaseException as e:
